@@ -197,6 +197,10 @@ class JSONStringFormatter(StringFormatter):
             printer.write(json.dumps(c)[1:-1])
 
         """
+        if len(c) == 1 and ord(c) > 0xFFFF:
+            # json.dumps would write a pair of surrogate escapes, which not every JSON5 parser joins back into one
+            # character; the character itself is valid in a JSON string and is read back unchanged by all of them
+            return c
         # json.dumps will enclose the string in quotes, so remove them
         return json.dumps(c)[1:-1]
 
